@@ -97,4 +97,9 @@ MUTANTS = [
     # ---- PARSER recursion measure
     M('parser:block_expr:brace-not-consumed', 'parser', ['C01'], 'block_expr', "    p.bump(T!['{']);\n", ''),
     M('parser:paren:open-not-consumed', 'parser', ['C01'], 'tuple_expr', "    p.expect(T!['(']);\n", ''),
+    # ---- LEX stage C
+    M('lex:string:escape-not-skipped', 'lex', ['C11', 'C15'], "Cursor<'_>::double_quoted_string", "                    only_ones_and_zeros = false;\n                    self.bump();", "                    only_ones_and_zeros = false;"),
+    M('lex:string:eof-is-terminated', 'lex', ['C11'], "Cursor<'_>::double_quoted_string", "        // End of file reached.\n        (terminated, only_ones_and_zeros, consecutive_underscores)", "        // End of file reached.\n        (true, only_ones_and_zeros, consecutive_underscores)"),
+    M('lex:block_comment:no-nesting', 'lex', ['C11', 'C15'], "Cursor<'_>::block_comment", "                    self.bump();\n                    depth += 1;", "                    self.bump();"),
+    M('lex:block_comment:unterminated-flag', 'lex', ['C11'], "Cursor<'_>::block_comment", "terminated: depth == 0,", "terminated: true,"),
 ]
